@@ -122,6 +122,22 @@ def run(ctx):
                                     helper_early += [(c.block_line(x), c.block_line(y)) for (x, y) in ex]
             rep.check(not early and not helper_early, "C18.R6", "commutative-folds-all:%s" % v, "%d operand loop(s), none exits early" % len(loops),
                       "the %s arm leaves its operand loop early (line %s): later operands are ignored, so the result depends on emission key order" % (v, (early + helper_early)[:2]), site=ap.loc())
+    # R7: Max/Min select by the TOTAL order of the payload bytes (`Iterator::max/min`, `Ord::max/min`).  A custom comparator
+    # (`max_by(cmp_padded)`) can make two different payloads compare equal; which of them wins then depends on key order.
+    rep.rule("C18.R7", "Max/Min pick by the payload's own total order, never through a custom comparator")
+    if full_sw:
+        bb, arms, ow, _ = full_sw[0]
+        tg = set(arms.values())
+        for v in ("Max", "Min"):
+            tgt = arms.get(v)
+            if tgt is None:
+                continue
+            region = ap.reachable([tgt], avoid_blocks=[x for x in tg if x != tgt])
+            callees = [(ap.callee_of(ap.blocks[b]["t"]) or "") for b in region if ap.blocks[b]["t"]["t"] == "call"]
+            custom = [c.rsplit("::", 1)[-1] for c in callees if re.search(r"::(max_by|min_by|max_by_key|min_by_key|is_sorted_by|sort_by|sort_unstable_by)$", c)]
+            total = [c for c in callees if re.search(r"Iterator::(max|min)$|cmp::Ord::(max|min)$|Iterator>::(max|min)$", c)]
+            rep.check(bool(total) and not custom, "C18.R7", "extremum-by-total-order:%s" % v, "selects with %s" % (total[0].rsplit("::", 2)[-2:] if total else "-"),
+                      "the %s arm selects through %s: a comparator under which two different payloads tie makes the result depend on emission key order" % (v, custom or "no total-order selection"), site=ap.loc())
     ic = prog.fn(MB + "reduce_op::ReduceOp::is_commutative")
     sws = enum_switches(ic, MB + "reduce_op::ReduceOp")
     got = None
